@@ -67,7 +67,7 @@ let () = register "cache" (fun args ->
           | [ "iter" ] -> call OIter false; None
           | [ "clear" ] -> call OClear true; None
           | [ "close" ] -> call OClose true; None
-          | [ "closeset"; k; c; v; cost ] ->
+          | "closeset" :: k :: c :: v :: cost :: pass ->
               (* Close (buffer empty) during which, right after the first OnExit it delivers, another thread
                  issues a Set *)
               Hashtbl.replace costs (n_of_string v) (z_of_string cost);
@@ -98,13 +98,14 @@ let () = register "cache" (fun args ->
                 (match mstep cfg !st (LStep ctid) with Some s -> st := s | None -> stuck := true)
               done;
               if thread_busy !st ctid then blocked := (tid, true) :: !blocked;
-              st := settle cfg (nat_of_int 1000) !st (if !st.s_buf = [] then all_blocked () else nonclear_blocked ());
+              st := settle cfg (nat_of_int 1000) !st
+                  (if !st.s_buf = [] || pass = [ "pass" ] then all_blocked () else nonclear_blocked ());
               None
           | [ "rem" ] -> call ORem false; None
           | [ "max" ] -> call OMax false; None
           | [ "updmax"; z ] -> call (OUpdMax (z_of_string z)) false; None
           | "tok" :: rest ->
-              if !st.s_buf = [] then Some "idle"
+              if !st.s_buf = [] || !st.s_apc = AExited then Some "idle"
               else begin
                 let hold = (rest = [ "hold" ]) in
                 st := do_tok cfg !st (if hold then nonclear_blocked () else all_blocked ());
